@@ -324,7 +324,23 @@ func (e *Env) object(obj types.Object) Val {
 		case constant.String:
 			return Val{T: t.vc.strConst(constant.StringVal(o.Val())), Ty: tString}
 		}
+	case *types.Func:
+		// a function name denotes its (constant) function value
+		for k, fn := range t.w.FuncKeys {
+			if fn.Object() == types.Object(o) {
+				_ = k
+				return Val{T: t.val(fn), Ty: o.Type()}
+			}
+		}
+		efail("function %s has no body in this program", o.Name())
 	case *types.Var:
+		if o.Pkg() != nil && t.w.roGlobal[globalKey(o.Pkg(), o.Name())] {
+			if _, isStruct := o.Type().Underlying().(*types.Struct); !isStruct {
+				if _, isArr := o.Type().Underlying().(*types.Array); !isArr {
+					return Val{T: t.roGlobalVal(globalKey(o.Pkg(), o.Name()), o.Type()), Ty: o.Type()}
+				}
+			}
+		}
 		// global variable: load from its cell
 		if e.cur == nil {
 			efail("state access in pure context")
@@ -996,6 +1012,14 @@ func (e *Env) call(x *SCall) Val {
 	case "int", "uint8", "byte", "uint16", "uint32", "uint64", "int64", "int32", "uint":
 		v := e.rvalue(e.eval(x.Args[0]))
 		return Val{T: v.T, Ty: types.Universe.Lookup(id.Name).Type()}
+	case "string":
+		v := e.rvalue(e.eval(x.Args[0]))
+		if v.T.Sort == SSlc {
+			t.vc.needStr()
+			t.vc.declFun("str_of", "(declare-fun str_of (Slice) Int)")
+			return Val{T: Term{fmt.Sprintf("(str_of %s)", v.T.S), SInt_}, Ty: tString}
+		}
+		return Val{T: v.T, Ty: tString}
 	case "min", "max":
 		a := e.rvalue(e.eval(x.Args[0]))
 		b := e.rvalue(e.eval(x.Args[1]))
